@@ -922,74 +922,118 @@ func containsAtomOf(d linForm, sub string) bool {
 	return false
 }
 
+// vtrack follows a verdict upwards through wrappers: a value is a *carrier* in a function if it can be true only
+// where the verdict of the level below was true.
+type vtrack struct {
+	carriers map[*ssa.Function]map[ssa.Value]bool
+	atomOK   func(f *ssa.Function, at Atom) bool // extra base facts given as branch atoms (e.g. compare == 1)
+}
+
+func newVtrack() *vtrack { return &vtrack{carriers: map[*ssa.Function]map[ssa.Value]bool{}} }
+
+func (t *vtrack) add(f *ssa.Function, v ssa.Value) {
+	if t.carriers[f] == nil {
+		t.carriers[f] = map[ssa.Value]bool{}
+	}
+	t.carriers[f][v] = true
+}
+
+// resultCarriers marks the (first) result of call ci in f as a carrier.
+func (t *vtrack) resultCarriers(f *ssa.Function, ci ssa.CallInstruction) {
+	v := ci.Value()
+	if v == nil {
+		return
+	}
+	if _, isTuple := v.Type().(*types.Tuple); isTuple {
+		if refs := v.Referrers(); refs != nil {
+			for _, r := range *refs {
+				if ex, ok := r.(*ssa.Extract); ok && ex.Index == 0 {
+					t.add(f, ex)
+				}
+			}
+		}
+		return
+	}
+	t.add(f, v)
+}
+
+func (t *vtrack) underCarrier(f *ssa.Function, conds []Cond) bool {
+	for _, cd := range conds {
+		v, pos := cd.V, cd.Pos
+		for {
+			if u, ok := v.(*ssa.UnOp); ok && u.Op == token.NOT {
+				v, pos = u.X, !pos
+				continue
+			}
+			break
+		}
+		if pos && t.carriers[f][v] {
+			return true
+		}
+		for _, at := range atomsOf([]Cond{cd}) {
+			if t.carriers[f][at.X] {
+				if k, ok := at.Y.(*ssa.Const); ok && k.Value != nil && ((at.Op == token.EQL && k.Value.String() == "true") || (at.Op == token.NEQ && k.Value.String() == "false")) {
+					return true
+				}
+			}
+			if t.atomOK != nil && t.atomOK(f, at) {
+				return true
+			}
+		}
+	}
+	return false
+}
+
+// onlyUnder: value v, reached under conds, can be true only under a carrier.
+func (t *vtrack) onlyUnder(f *ssa.Function, v ssa.Value, conds []Cond, depth int) bool {
+	if k, ok := v.(*ssa.Const); ok && k.Value != nil && k.Value.String() == "false" {
+		return true
+	}
+	if t.carriers[f][v] {
+		return true
+	}
+	if t.underCarrier(f, conds) {
+		return true
+	}
+	if bo, ok := v.(*ssa.BinOp); ok && t.atomOK != nil {
+		// the comparison itself as a boolean value: true exactly where the atom holds
+		if t.atomOK(f, Atom{bo.X, bo.Y, bo.Op}) {
+			return true
+		}
+	}
+	if ph, ok := v.(*ssa.Phi); ok && depth < 4 {
+		for i, e := range ph.Edges {
+			if !t.onlyUnder(f, e, append(append([]Cond(nil), conds...), EdgeConds(ph.Block().Preds[i], ph.Block())...), depth+1) {
+				return false
+			}
+		}
+		return true
+	}
+	return false
+}
+
+// fnOK: every return of f yields true (first result) only under a carrier.
+func (t *vtrack) fnOK(f *ssa.Function) bool {
+	for _, r := range Returns(f) {
+		if len(r.Results) == 0 {
+			continue
+		}
+		if !t.onlyUnder(f, r.Results[0], CondsAt(r.Block()), 0) {
+			return false
+		}
+	}
+	return true
+}
+
 // checkAcceptGuardG (pfx.5): the entry point returns true only under the verdict of a per-step validation.
 // The verdict may reach the entry point through wrappers (closures / helpers returning bool or (bool, error)):
 // a wrapper's result carries the verdict iff it can be true only where the next level's verdict is true.
 func checkAcceptGuardG(c *Check, w *World, tb *TB, pfx string, entry *ssa.Function, sites []*winSite) {
 	fn := FuncName(entry)
-	// carriers per function: SSA values that are true only if a step validation returned true
-	carriers := map[*ssa.Function]map[ssa.Value]bool{}
-	add := func(f *ssa.Function, v ssa.Value) {
-		if carriers[f] == nil {
-			carriers[f] = map[ssa.Value]bool{}
-		}
-		carriers[f][v] = true
-	}
-	resultCarriers := func(f *ssa.Function, ci ssa.CallInstruction) {
-		v := ci.Value()
-		if v == nil {
-			return
-		}
-		if _, isTuple := v.Type().(*types.Tuple); isTuple {
-			if refs := v.Referrers(); refs != nil {
-				for _, r := range *refs {
-					if ex, ok := r.(*ssa.Extract); ok && ex.Index == 0 {
-						add(f, ex)
-					}
-				}
-			}
-			return
-		}
-		add(f, v)
-	}
-	underCarrier := func(f *ssa.Function, conds []Cond) bool {
-		for _, cd := range conds {
-			if cd.Pos && carriers[f][cd.V] {
-				return true
-			}
-			for _, at := range atomsOf([]Cond{cd}) {
-				// v == true / v != false
-				if carriers[f][at.X] {
-					if k, ok := at.Y.(*ssa.Const); ok && k.Value != nil && ((at.Op == token.EQL && k.Value.String() == "true") || (at.Op == token.NEQ && k.Value.String() == "false")) {
-						return true
-					}
-				}
-			}
-		}
-		return false
-	}
-	// may v be true at a return in block rb of f only under a carrier?
-	var onlyUnder func(f *ssa.Function, v ssa.Value, conds []Cond, depth int) bool
-	onlyUnder = func(f *ssa.Function, v ssa.Value, conds []Cond, depth int) bool {
-		if k, ok := v.(*ssa.Const); ok && k.Value != nil && k.Value.String() == "false" {
-			return true
-		}
-		if carriers[f][v] {
-			return true
-		}
-		if underCarrier(f, conds) {
-			return true
-		}
-		if ph, ok := v.(*ssa.Phi); ok && depth < 4 {
-			for i, e := range ph.Edges {
-				if !onlyUnder(f, e, append(append([]Cond(nil), conds...), EdgeConds(ph.Block().Preds[i], ph.Block())...), depth+1) {
-					return false
-				}
-			}
-			return true
-		}
-		return false
-	}
+	vt := newVtrack()
+	resultCarriers := vt.resultCarriers
+	underCarrier := vt.underCarrier
+	onlyUnder := vt.onlyUnder
 	okAll := true
 	for _, s := range sites {
 		last := len(s.levels) - 1
